@@ -297,6 +297,15 @@ func (ex *Exec) consume(st *State, id int, n *Term) (*Term, *Term) {
 	panic("consume")
 }
 
+// stBound: the call instruction's result has been bound in st (so st may continue).
+func stBound(st *State, in *ssa.Call) bool {
+	if in == nil || len(st.frames) == 0 {
+		return false
+	}
+	_, ok := st.top().env[in]
+	return ok
+}
+
 func isLimited(o *Obj) bool {
 	if o == nil || o.T == nil {
 		return false
@@ -352,6 +361,49 @@ func init() {
 				return okS == st
 			}
 			return eofS == st
+		},
+		"(*bufio.Reader).Read": func(ex *Exec, st *State, args []Value, in *ssa.Call, pos token.Pos) bool {
+			// Read may return ANY number of bytes between 1 and min(len(p), available): every
+			// segmentation of the stream is covered by one symbolic count
+			id, ok := ex.streamOf(st, args[0])
+			if !ok {
+				panic("bufio.Reader.Read on unknown reader")
+			}
+			buf := args[1].(SliceV)
+			rem := ex.remaining(st, id)
+			some, none := ex.fork(st, And(Ult(Const(64, 0), rem), Ult(Const(64, 0), buf.Len)))
+			if none != nil {
+				// nothing available (end of stream) or empty buffer
+				eof, empty := ex.fork(none, Eq(ex.remaining(none, id), Const(64, 0)))
+				if eof != nil {
+					setRes(eof, in, TupleV{Const(64, 0), errVal("io.EOF")})
+					if eof != st {
+						ex.work = append(ex.work, eof)
+					}
+				}
+				if empty != nil {
+					setRes(empty, in, TupleV{Const(64, 0), nilErr})
+					if empty != st {
+						ex.work = append(ex.work, empty)
+					}
+				}
+			}
+			if some != nil {
+				k := ex.freshVar("read.k", BV(64))
+				some.pc = append(some.pc, Ule(Const(64, 1), k), Ule(k, buf.Len), Ule(k, ex.remaining(some, id)))
+				a, off := ex.consume(some, id, k)
+				ba, _ := ex.sliceArr(some, buf)
+				some.heap[buf.Obj] = &Obj{Val: ArrV{ACopy(ba.A, buf.Off, a, off, k), ba.N, ba.ElW}}
+				setRes(some, in, TupleV{k, nilErr})
+				if some != st {
+					ex.work = append(ex.work, some)
+				}
+			}
+			return stBound(st, in)
+		},
+		"golang.org/x/sys/unix.Getpagesize": func(ex *Exec, st *State, args []Value, in *ssa.Call, pos token.Pos) bool {
+			setRes(st, in, Const(64, 4096))
+			return true
 		},
 		"(*bufio.Reader).Discard": func(ex *Exec, st *State, args []Value, in *ssa.Call, pos token.Pos) bool {
 			id, _ := ex.streamOf(st, args[0])
